@@ -1,5 +1,705 @@
 package main
 
-func rulesCosmosRoundTrip(r *Run, rule string) {}
-func ruleCosmosBatch(r *Run, rule string)      {}
-func rulesCosmosSearch(r *Run, rule string)    {}
+import (
+	"go/ast"
+	"go/token"
+	"go/types"
+	"reflect"
+	"sort"
+	"strings"
+)
+
+const pkgCosmos = "workflow/storage/cosmosdb"
+
+func cosKey(name string) string { return pkgCosmos + "." + name }
+
+var cosmosEntries = []struct{ entry, typ string }{
+	{"plansEntry", "workflow.Plan"}, {"blocksEntry", "workflow.Block"}, {"checksEntry", "workflow.Checks"},
+	{"sequencesEntry", "workflow.Sequence"}, {"actionsEntry", "workflow.Action"},
+}
+
+// cosmosMaps extracts, for one entry type, entry field → workflow source field (writer)
+// and entry field → workflow destination field (reader).
+type cosmosMaps struct {
+	w, r   map[string]string
+	wpos   token.Pos
+	rpos   token.Pos
+	wfn    string
+	rfn    string
+	tags   map[string]string // entry field → json tag name
+}
+
+// wfField names the field of a workflow object an expression selects (State.X flattened).
+func wfField(info *types.Info, e ast.Expr, own string) string {
+	found := ""
+	type cand struct{ base, field string }
+	var cands []cand
+	ast.Inspect(e, func(n ast.Node) bool {
+		sel, ok := n.(*ast.SelectorExpr)
+		if !ok {
+			return true
+		}
+		if tv, ok := info.Types[sel.X]; ok && workflowObjTypes[ShortType(tv.Type)] {
+			if s := info.Selections[sel]; s != nil && s.Kind() == types.FieldVal {
+				f := sel.Sel.Name
+				if f == "State" {
+					if parent := selectorParent(e, sel); parent != nil {
+						f = "State." + parent.Sel.Name
+					}
+				}
+				cands = append(cands, cand{ShortType(tv.Type), f})
+			}
+		}
+		return true
+	})
+	for _, c := range cands {
+		if c.base == own {
+			found = c.field
+		}
+	}
+	if found == "" && len(cands) > 0 {
+		found = cands[len(cands)-1].field
+	}
+	return found
+}
+
+// localDef follows a local variable to its single defining expression.
+func localDef(info *types.Info, body ast.Node, e ast.Expr) ast.Expr {
+	obj := ObjOf(info, e)
+	if obj == nil {
+		return nil
+	}
+	var def ast.Expr
+	ast.Inspect(body, func(n ast.Node) bool {
+		as, ok := n.(*ast.AssignStmt)
+		if !ok {
+			return true
+		}
+		for i, l := range as.Lhs {
+			if ObjOf(info, l) == obj && def == nil {
+				if len(as.Rhs) == len(as.Lhs) {
+					def = as.Rhs[i]
+				} else if len(as.Rhs) == 1 {
+					def = as.Rhs[0]
+				}
+			}
+		}
+		return true
+	})
+	return def
+}
+
+func buildCosmosMaps(r *Run, rule, entry, typ string) *cosmosMaps {
+	pkg := r.P.Pkgs[pkgCosmos]
+	if pkg == nil {
+		r.Unresolved(rule, pkgCosmos)
+		return nil
+	}
+	info := pkg.TypesInfo
+	m := &cosmosMaps{w: map[string]string{}, r: map[string]string{}, tags: map[string]string{}}
+	st, _ := r.P.StructOf(pkgCosmos, entry)
+	if st == nil {
+		r.Unresolved(rule, cosKey(entry))
+		return nil
+	}
+	for i := 0; i < st.NumFields(); i++ {
+		tag := reflect.StructTag(st.Tag(i)).Get("json")
+		m.tags[st.Field(i).Name()] = strings.Split(tag, ",")[0]
+	}
+	isEntry := func(t types.Type) bool { return ShortType(t) == "cosmosdb."+entry }
+	for _, fn := range r.P.sortedFuncs() {
+		if fn.Pkg != pkg || fn.Decl.Body == nil || strings.HasSuffix(r.P.Fset.Position(fn.Decl.Pos()).Filename, "fake_storage.go") || strings.HasSuffix(r.P.Fset.Position(fn.Decl.Pos()).Filename, "testing.go") {
+			continue
+		}
+		parents := parentMap(fn.Decl.Body)
+		ast.Inspect(fn.Decl.Body, func(n ast.Node) bool {
+			switch x := n.(type) {
+			case *ast.CompositeLit:
+				if tv, ok := info.Types[x]; ok && isEntry(tv.Type) && len(x.Elts) > 0 {
+					m.wpos, m.wfn = x.Pos(), fn.Key
+					for _, el := range x.Elts {
+						kv, ok := el.(*ast.KeyValueExpr)
+						if !ok {
+							continue
+						}
+						k := kv.Key.(*ast.Ident).Name
+						src := wfField(info, kv.Value, typ)
+						if src == "" {
+							if def := localDef(info, fn.Decl.Body, kv.Value); def != nil {
+								src = wfField(info, def, typ)
+							}
+						}
+						m.w[k] = src
+					}
+				}
+			case *ast.AssignStmt:
+				for i, l := range x.Lhs {
+					sel, ok := ast.Unparen(l).(*ast.SelectorExpr)
+					if !ok {
+						continue
+					}
+					if tv, ok := info.Types[sel.X]; ok && isEntry(tv.Type) && len(x.Rhs) == len(x.Lhs) {
+						m.w[sel.Sel.Name] = wfField(info, x.Rhs[i], typ)
+					}
+				}
+			case *ast.SelectorExpr:
+				// a read of resp.F
+				tv, ok := info.Types[x.X]
+				if !ok || !isEntry(tv.Type) {
+					return true
+				}
+				if s := info.Selections[x]; s == nil || s.Kind() != types.FieldVal {
+					return true
+				}
+				// skip writes (LHS of assignment)
+				if as, ok := parents[x].(*ast.AssignStmt); ok {
+					for _, l := range as.Lhs {
+						if ast.Unparen(l) == ast.Expr(x) {
+							return true
+						}
+					}
+				}
+				dest := cosmosDest(info, parents, x)
+				if dest != "" {
+					if m.rpos == 0 {
+						m.rpos, m.rfn = x.Pos(), fn.Key
+					}
+					if old, ok := m.r[x.Sel.Name]; !ok || old == "" {
+						m.r[x.Sel.Name] = dest
+					}
+				} else if _, ok := m.r[x.Sel.Name]; !ok && strings.HasPrefix(fn.Obj.Name(), "docTo") {
+					m.r[x.Sel.Name] = ""
+				}
+			}
+			return true
+		})
+	}
+	return m
+}
+
+// cosmosDest: the workflow field a read of an entry field flows into.
+func cosmosDest(info *types.Info, parents map[ast.Node]ast.Node, x ast.Node) string {
+	for n := parents[x]; n != nil; n = parents[n] {
+		switch p := n.(type) {
+		case *ast.KeyValueExpr:
+			if id, ok := p.Key.(*ast.Ident); ok {
+				if cl, ok := parents[p].(*ast.CompositeLit); ok {
+					if tv, ok := info.Types[cl]; ok {
+						switch t := ShortType(tv.Type); {
+						case t == "workflow.State":
+							return "State." + id.Name
+						case workflowObjTypes[t]:
+							return id.Name
+						}
+					}
+				}
+			}
+		case *ast.AssignStmt:
+			if sel, ok := ast.Unparen(p.Lhs[0]).(*ast.SelectorExpr); ok {
+				if tv, ok := info.Types[sel.X]; ok && workflowObjTypes[ShortType(tv.Type)] {
+					return sel.Sel.Name
+				}
+			}
+			if obj := ObjOf(info, p.Lhs[0]); obj != nil {
+				var body ast.Node = p
+				for b := parents[ast.Node(p)]; b != nil; b = parents[b] {
+					body = b
+				}
+				return destViaVar(info, body, obj, p.Pos(), 0)
+			}
+			return ""
+		case *ast.CallExpr:
+			if sel, ok := ast.Unparen(p.Fun).(*ast.SelectorExpr); ok && sel.Sel.Name == "SetPlanID" {
+				return "planID"
+			}
+		case *ast.BlockStmt:
+			return ""
+		}
+	}
+	return ""
+}
+
+// destViaVar: the workflow field a local variable (live from `from` until its next
+// definition) is stored into, directly or after being decoded into another variable.
+func destViaVar(info *types.Info, body ast.Node, obj types.Object, from token.Pos, depth int) string {
+	until := token.Pos(1 << 40)
+	ast.Inspect(body, func(n ast.Node) bool {
+		if as, ok := n.(*ast.AssignStmt); ok && as.Pos() > from {
+			for _, l := range as.Lhs {
+				if ObjOf(info, l) == obj && as.Pos() < until {
+					until = as.Pos()
+				}
+			}
+		}
+		return true
+	})
+	dest := ""
+	var second types.Object
+	var secondPos token.Pos
+	ast.Inspect(body, func(n ast.Node) bool {
+		if dest != "" || n == nil {
+			return false
+		}
+		if n.Pos() >= until {
+			return false
+		}
+		switch x := n.(type) {
+		case *ast.AssignStmt:
+			if x.Pos() <= from {
+				return true
+			}
+			for i, l := range x.Lhs {
+				sel, ok := ast.Unparen(l).(*ast.SelectorExpr)
+				if !ok {
+					continue
+				}
+				tv, ok := info.Types[sel.X]
+				if !ok || !workflowObjTypes[ShortType(tv.Type)] {
+					continue
+				}
+				var rhs ast.Expr
+				if len(x.Rhs) == len(x.Lhs) {
+					rhs = x.Rhs[i]
+				} else if len(x.Rhs) == 1 {
+					rhs = x.Rhs[0]
+				}
+				if rhs != nil && mentionsObj(info, rhs, obj) {
+					dest = sel.Sel.Name
+				}
+			}
+		case *ast.CallExpr:
+			if x.Pos() <= from {
+				return true
+			}
+			if second == nil && len(x.Args) == 2 && mentionsObj(info, x.Args[0], obj) {
+				a := ast.Unparen(x.Args[1])
+				if u, ok := a.(*ast.UnaryExpr); ok && u.Op == token.AND {
+					a = ast.Unparen(u.X)
+				}
+				if o := ObjOf(info, a); o != nil && o != obj {
+					second, secondPos = o, x.Pos()
+				}
+			}
+		}
+		return true
+	})
+	if dest == "" && second != nil && depth < 1 {
+		return destViaVar(info, body, second, secondPos, depth+1)
+	}
+	return dest
+}
+
+var cosmosMeta = map[string]bool{"PartitionKey": true, "Swarm": true, "Type": true, "ETag": true, "Pos": true}
+
+func rulesCosmosRoundTrip(r *Run, rule string) {
+	n := 0
+	for _, e := range cosmosEntries {
+		m := buildCosmosMaps(r, rule, e.entry, e.typ)
+		if m == nil {
+			continue
+		}
+		if len(m.w) == 0 || len(m.r) == 0 {
+			r.Unresolved(rule, "writer literal / reader selectors of "+e.entry)
+			continue
+		}
+		r.Funcs[m.wfn] = true
+		r.Funcs[m.rfn] = true
+		fields := persistentFields(r.P, e.typ)
+		W := map[string][]string{} // workflow field → entry fields written from it
+		R := map[string][]string{}
+		for ef, src := range m.w {
+			if src != "" {
+				W[src] = append(W[src], ef)
+			}
+		}
+		for ef, dst := range m.r {
+			if dst != "" {
+				R[dst] = append(R[dst], ef)
+			}
+		}
+		var notWritten, notRead, crossed []string
+		for _, f := range fields {
+			r.Evals++
+			if len(W[f]) == 0 {
+				notWritten = append(notWritten, f)
+			}
+			if len(R[f]) == 0 {
+				notRead = append(notRead, f)
+			}
+			for _, ef := range R[f] {
+				okSrc := false
+				for _, wf := range W[f] {
+					if wf == ef {
+						okSrc = true
+					}
+				}
+				if !okSrc && m.w[ef] != "" {
+					crossed = append(crossed, ef+": written from "+m.w[ef]+", read into "+f)
+				}
+			}
+		}
+		sort.Strings(notWritten)
+		sort.Strings(notRead)
+		sort.Strings(crossed)
+		n += 3
+		r.Check(rule, "cosmos:"+e.entry+":every-field-written", m.wpos, len(notWritten) == 0, "fields of %s the cosmosdb writer (%s) never stores: %v", e.typ, ShortFn(m.wfn), notWritten)
+		r.Check(rule, "cosmos:"+e.entry+":every-field-read", m.rpos, len(notRead) == 0, "fields of %s the cosmosdb reader (%s) never restores: %v (the stored value is lost on every read)", e.typ, ShortFn(m.rfn), notRead)
+		r.Check(rule, "cosmos:"+e.entry+":writer-reader-agree", m.rpos, len(crossed) == 0, "entry fields whose writer source and reader destination differ: %v", crossed)
+		// patch paths
+		ruleCosmosPatch(r, rule, e.entry, e.typ, m)
+		n++
+	}
+	r.Expect(rule, 20)
+}
+
+var cosmosUpdaters = map[string]string{
+	"plansEntry": "planUpdater.UpdatePlan", "blocksEntry": "blockUpdater.UpdateBlock", "checksEntry": "checksUpdater.UpdateChecks",
+	"sequencesEntry": "sequenceUpdater.UpdateSequence", "actionsEntry": "actionUpdater.UpdateAction",
+}
+
+func ruleCosmosPatch(r *Run, rule, entry, typ string, m *cosmosMaps) {
+	fn := r.fnByKey(rule, cosKey(cosmosUpdaters[entry]))
+	if fn == nil {
+		return
+	}
+	info := fn.Pkg.TypesInfo
+	tagToField := map[string]string{}
+	for f, t := range m.tags {
+		tagToField[t] = f
+	}
+	patched := map[string]bool{}
+	bad := ""
+	var bpos token.Pos = fn.Decl.Pos()
+	ast.Inspect(fn.Decl.Body, func(n ast.Node) bool {
+		c, ok := n.(*ast.CallExpr)
+		if !ok || len(c.Args) != 2 {
+			return true
+		}
+		sel, ok := ast.Unparen(c.Fun).(*ast.SelectorExpr)
+		if !ok || !strings.HasPrefix(sel.Sel.Name, "Append") {
+			return true
+		}
+		path, isC := ConstString(info, c.Args[0])
+		if !isC || !strings.HasPrefix(path, "/") {
+			return true
+		}
+		r.Evals++
+		ef, known := tagToField[strings.TrimPrefix(path, "/")]
+		if !known {
+			if bad == "" {
+				bad, bpos = "patch path "+path+" is not the JSON name of any field of "+entry+": the update writes a property the reader never looks at and leaves the real one unchanged", c.Pos()
+			}
+			return true
+		}
+		src := wfField(info, c.Args[1], typ)
+		if src == "" {
+			if def := localDef(info, fn.Decl.Body, c.Args[1]); def != nil {
+				src = wfField(info, def, typ)
+			}
+		}
+		if want := m.w[ef]; want != "" && src != "" && want != src && bad == "" {
+			bad, bpos = "patch path "+path+" ("+entry+"."+ef+", created from "+want+") is updated from "+src, c.Pos()
+		}
+		patched[src] = true
+		return true
+	})
+	mutable := []string{"State.Status", "State.Start", "State.End"}
+	if typ == "workflow.Action" {
+		mutable = append(mutable, "Attempts")
+	}
+	if typ == "workflow.Plan" {
+		mutable = append(mutable, "Reason")
+	}
+	var missing []string
+	for _, f := range mutable {
+		if !patched[f] {
+			missing = append(missing, f)
+		}
+	}
+	if len(missing) > 0 && bad == "" {
+		bad = "mutable fields of " + typ + " that " + cosmosUpdaters[entry] + " never patches: " + strings.Join(missing, ", ")
+	}
+	r.Check(rule, "cosmos:"+entry+":patch-paths", bpos, bad == "", "%s", orOK(bad, "every patch path is a JSON name of the entry, fed from the field it was created from; mutable fields covered"))
+}
+
+// ruleCosmosBatch: all items of a plan go into one transactional batch on the plan's partition key.
+func ruleCosmosBatch(r *Run, rule string) {
+	fn := r.fnByKey(rule, cosKey("creator.commitPlan"))
+	if fn == nil {
+		return
+	}
+	fl, paths, ok := r.flowPaths(rule, fn)
+	if !ok {
+		return
+	}
+	info := fl.Info
+	bad := ""
+	n := 0
+	anyCreated := false
+	for i := range paths {
+		p := &paths[i]
+		if p.Exit != ExitReturn {
+			continue
+		}
+		// success path only
+		var ret *Event
+		for j := range p.Ev {
+			if p.Ev[j].Kind == EvReturn {
+				ret = &p.Ev[j]
+			}
+		}
+		if ret == nil {
+			continue
+		}
+		if isNil, has := ReturnsNilLast(info, *ret); !has || !isNil {
+			continue
+		}
+		n++
+		// first NewTransactionalBatch: key(p); items created in a range over itemContext.items; executed once before the re-read
+		bi, xi, ri := -1, -1, -1
+		var batchObj types.Object
+		created := false
+		planKey := false
+		for j, e := range p.Ev {
+			if e.Kind == EvCall && strings.HasSuffix(CalleeKey(e), ".NewTransactionalBatch") && bi < 0 {
+				bi = j
+				if len(e.Call.Args) == 1 {
+					if c, ok := ast.Unparen(e.Call.Args[0]).(*ast.CallExpr); ok {
+						if f, ok := calleeFunc(info, c); ok && FuncKey(f) == cosKey("key") {
+							planKey = true
+						}
+					}
+				}
+				if as, ok := e.Node.(*ast.AssignStmt); ok {
+					batchObj = ObjOf(info, as.Lhs[0])
+				}
+			}
+			if e.Kind == EvCall && strings.HasSuffix(CalleeKey(e), "TransactionalBatch.CreateItem") && bi >= 0 && xi < 0 && recvObj(info, e.Call) == batchObj {
+				created = true
+			}
+			if IsCall(e, cosKey("batchRetryer")) && xi < 0 && bi >= 0 {
+				xi = j
+			}
+			if IsCall(e, cosKey("reader.fetchPlan")) && ri < 0 {
+				ri = j
+			}
+		}
+		if created {
+			anyCreated = true
+		}
+		switch {
+		case bi < 0 || !planKey:
+			bad = orOK(bad, "the plan's items are not put into a transactional batch on the plan's own partition key")
+		case xi < 0:
+			bad = orOK(bad, "the first batch is not executed")
+		}
+		// planToItems' error returns before the batch
+		pi := -1
+		for j, e := range p.Ev {
+			if IsCall(e, cosKey("planToItems")) {
+				pi = j
+			}
+		}
+		if pi < 0 || pi > bi {
+			bad = orOK(bad, "the items are not all encoded (planToItems) before the batch is built: an encoding error midway could leave a partial plan")
+		}
+	}
+	if n == 0 {
+		r.Unresolved(rule, "cosmosdb commitPlan success path")
+		return
+	}
+	if !anyCreated {
+		bad = orOK(bad, "the plan's items are never added to the first batch")
+	}
+	r.Check(rule, "cosmos:commitPlan:single-batch", fn.Decl.Pos(), bad == "", "%s", orOK(bad, "planToItems, then one TransactionalBatch on key(plan) with every item, executed once"))
+	// planToItems collects every object kind: error discipline inside the encoders
+	for _, k := range []string{"planToItems", "checksToItems", "blockToItem", "seqToItems", "actionToItems", "planToEntry", "checkToEntry", "blockToEntry", "sequenceToEntry", "actionToEntry", "encodeAttempts", "objsToIDs"} {
+		if f := r.fnByKey(rule, cosKey(k)); f != nil {
+			errorDiscipline(r, rule, f)
+		}
+	}
+	r.Expect(rule, 25)
+}
+
+// rulesCosmosSearch: searchEntry literals agree and carry the fields the search query filters on;
+// the query builder's templates are well formed.
+func rulesCosmosSearch(r *Run, rule string) {
+	pkg := r.P.Pkgs[pkgCosmos]
+	if pkg == nil {
+		r.Unresolved(rule, pkgCosmos)
+		return
+	}
+	info := pkg.TypesInfo
+	type lit struct {
+		fn   string
+		keys map[string]bool
+		pos  token.Pos
+	}
+	var lits []lit
+	for _, fn := range r.P.sortedFuncs() {
+		file := r.P.Fset.Position(fn.Decl.Pos()).Filename
+		if fn.Pkg != pkg || fn.Decl.Body == nil || strings.HasSuffix(file, "fake_storage.go") || strings.HasSuffix(file, "testing.go") {
+			continue
+		}
+		ast.Inspect(fn.Decl.Body, func(n ast.Node) bool {
+			cl, ok := n.(*ast.CompositeLit)
+			if !ok || len(cl.Elts) == 0 {
+				return true
+			}
+			if tv, ok := info.Types[cl]; !ok || ShortType(tv.Type) != "cosmosdb.searchEntry" {
+				return true
+			}
+			l := lit{fn: fn.Key, keys: map[string]bool{}, pos: cl.Pos()}
+			for _, el := range cl.Elts {
+				if kv, ok := el.(*ast.KeyValueExpr); ok {
+					l.keys[kv.Key.(*ast.Ident).Name] = true
+				}
+			}
+			lits = append(lits, l)
+			return true
+		})
+	}
+	if len(lits) < 2 {
+		r.Unresolved(rule, "two searchEntry literals (create and replace)")
+		return
+	}
+	union := map[string]bool{}
+	for _, l := range lits {
+		for k := range l.keys {
+			union[k] = true
+		}
+	}
+	for _, l := range lits {
+		var missing []string
+		for k := range union {
+			if !l.keys[k] {
+				missing = append(missing, k)
+			}
+		}
+		sort.Strings(missing)
+		r.Check(rule, "cosmos:searchEntry-literal:"+ShortFn(l.fn), l.pos, len(missing) == 0, "the searchEntry built in %s lacks %v which another writer of the same document sets: after this write the entry no longer matches queries that filter on it (the search query requires c.swarm=@swarm)", ShortFn(l.fn), missing)
+	}
+	// fields the queries reference must be JSON names of searchEntry and set by every literal
+	st, _ := r.P.StructOf(pkgCosmos, "searchEntry")
+	tags := map[string]string{}
+	for i := 0; st != nil && i < st.NumFields(); i++ {
+		tags[strings.Split(reflect.StructTag(st.Tag(i)).Get("json"), ",")[0]] = st.Field(i).Name()
+	}
+	fn := r.fnByKey(rule, cosKey("reader.buildSearchQuery"))
+	if fn == nil {
+		return
+	}
+	fl, paths, ok := r.flowPaths(rule, fn)
+	if !ok {
+		return
+	}
+	probs := map[string]bool{}
+	nT := 0
+	for i := range paths {
+		p := &paths[i]
+		if p.Exit != ExitReturn {
+			continue
+		}
+		t := evalSearchBuilder(fl, p)
+		// parameters appended: QueryParameter{Name: X}
+		for _, e := range p.Ev {
+			if e.Kind == EvAssign && len(e.Rhs) == 1 {
+				ast.Inspect(e.Rhs[0], func(n ast.Node) bool {
+					if cl, ok := n.(*ast.CompositeLit); ok {
+						if v := keyValue(cl, "Name"); v != nil {
+							if s, ok := ConstString(fl.Info, v); ok {
+								t.Named[s] = true
+							} else if id, ok := ast.Unparen(v).(*ast.Ident); ok && id.Name == "name" {
+								t.Named["@status*"] = true
+							}
+						}
+					}
+					return true
+				})
+			}
+		}
+		if t.Unknown != "" {
+			probs["UNDECIDED: "+t.Unknown] = true
+			continue
+		}
+		if t.Text == "" {
+			continue
+		}
+		nT++
+		for _, pr := range lintCosmosTemplate(t, tags) {
+			probs[pr+" — template: "+strings.TrimSpace(t.Text)] = true
+		}
+	}
+	var ps []string
+	for p := range probs {
+		ps = append(ps, p)
+	}
+	sort.Strings(ps)
+	if nT == 0 {
+		r.Unresolved(rule, "cosmosdb buildSearchQuery templates")
+		return
+	}
+	r.Check(rule, "cosmos:search-templates", fn.Decl.Pos(), len(ps) == 0, "%d templates: %s", nT, orOK(strings.Join(ps, "; "), "well-formed"))
+	// every field the query filters on is set by every literal
+	for _, l := range lits {
+		var missing []string
+		for _, f := range []string{"Swarm", "ID", "GroupID", "StateStatus", "SubmitTime"} {
+			if !l.keys[f] {
+				missing = append(missing, f)
+			}
+		}
+		r.Check(rule, "cosmos:searchEntry-has-filter-fields:"+ShortFn(l.fn), l.pos, len(missing) == 0, "searchEntry written by %s lacks %v, which the search/list queries filter or order on", ShortFn(l.fn), missing)
+	}
+	r.Expect(rule, 5)
+}
+
+func lintCosmosTemplate(t searchTemplate, tags map[string]string) []string {
+	var probs []string
+	q := t.Text
+	low := strings.ToLower(q)
+	if !strings.HasSuffix(strings.TrimSpace(strings.TrimSuffix(strings.TrimSpace(low), ";")), "order by c.submittime desc") {
+		probs = append(probs, "does not end with ORDER BY c.submitTime DESC")
+	}
+	depth := 0
+	for _, c := range q {
+		if c == '(' {
+			depth++
+		}
+		if c == ')' {
+			depth--
+		}
+		if depth < 0 {
+			break
+		}
+	}
+	if depth != 0 {
+		probs = append(probs, "unbalanced parentheses")
+	}
+	for _, w := range strings.FieldsFunc(q, func(r rune) bool { return !(r == '@' || r == '_' || r == '.' || (r >= '0' && r <= '9') || (r >= 'a' && r <= 'z') || (r >= 'A' && r <= 'Z')) }) {
+		if strings.HasPrefix(w, "@") {
+			if !t.Named[w] && !(strings.HasPrefix(w, "@status") && t.Named["@status*"]) {
+				probs = append(probs, "parameter "+w+" is used but never bound")
+			}
+		}
+		if strings.HasPrefix(w, "c.") && len(w) > 2 {
+			if _, ok := tags[strings.TrimPrefix(w, "c.")]; !ok {
+				probs = append(probs, "the query refers to "+w+" which is not a JSON property of searchEntry")
+			}
+		}
+	}
+	// a top-level OR next to other AND-ed filters must be parenthesised
+	d := 0
+	for i := 0; i+4 <= len(low); i++ {
+		switch low[i] {
+		case '(':
+			d++
+		case ')':
+			d--
+		}
+		if d == 0 && low[i:i+4] == " or " && strings.Count(low, " and ") > 0 {
+			probs = append(probs, "an OR at the top level next to AND-ed filters is not parenthesised (AND binds tighter: the swarm/other filters would apply to the first alternative only)")
+			break
+		}
+	}
+	return probs
+}
